@@ -1,6 +1,10 @@
 #!/usr/bin/env python3
 """Regenerates hsim/selftest/mutants/<prop>/*.patch from the substitution table below.
 
+(Dropped as equivalent after analysis: C04 `<`->`<=` in get_effective_id and `>`->`>=` in get_original_id (the extra
+case cannot occur), C02 parse-on-invalidate_caches (re-encoding is byte-identical), C06 unknown host mapped to the first
+viewer (the LLUDP layer still finds no circuit for it).)
+
 Each mutant is one small, realistic change to /repo (HEAD) that compiles; `--verify` additionally runs
 the repo's own test suite against each and reports the ones the suite already catches (those are
 dropped: a mutant the existing tests kill says nothing about what the simulation adds).
@@ -17,15 +21,11 @@ P = "hippolyzer/lib/"
 
 M = [
     # ---- C04 ----
-    ("C04", "eff-le", P + "proxy/circuit.py", "            if new_id < packet_id and new_id not in self.injections:",
-     "            if new_id <= packet_id and new_id not in self.injections:"),
     ("C04", "inject-not-tracked", P + "proxy/circuit.py", "        self.injections.append(new_id)\n        self.track_seen(new_id)",
      "        self.injections.append(new_id)"),
     ("C04", "back-break", P + "proxy/circuit.py", "            if packet_id > new_id:\n                continue",
      "            if packet_id > new_id:\n                break"),
     ("C04", "no-base-carry", P + "proxy/circuit.py", "            self._injection_base += 1\n", "            pass\n"),
-    ("C04", "back-ge", P + "proxy/circuit.py", "            if packet_id > new_id:\n                continue",
-     "            if packet_id >= new_id:\n                continue"),
     # ---- C05 ----
     ("C05", "collect-acks-same-direction", P + "base/message/circuit.py",
      "self.unacked_reliable.pop((~message.direction, ack), None)", "self.unacked_reliable.pop((message.direction, ack), None)"),
@@ -54,9 +54,6 @@ M = [
      "            if region.circuit_addr[0] == circuit_addr[0] and region.circuit:"),
     ("C06", "claim-any-pending-session", P + "proxy/sessions.py", "            if session.pending and session.id == session_id:",
      "            if session.pending:"),
-    ("C06", "unknown-host-forwarded", P + "proxy/socks_proxy.py",
-     "            if not near_addr:\n                logging.warning(\"Got datagram from unknown host %s:%s\" % source_addr)\n                return",
-     "            if not near_addr:\n                logging.warning(\"Got datagram from unknown host %s:%s\" % source_addr)\n                near_addr = next(iter(self.far_to_near_map.values()), None)\n                if not near_addr:\n                    return"),
     ("C06", "learn-only-first-far", P + "proxy/socks_proxy.py",
      "                self.far_to_near_map[remote_addr] = source_addr",
      "                if not self.far_to_near_map:\n                    self.far_to_near_map[remote_addr] = source_addr"),
@@ -71,13 +68,10 @@ M = [
     ("C02", "decode-without-terminator", P + "base/message/udpdeserializer.py",
      "            if unpacked_data.endswith(b\"\\x00\") and not unpacked_data.endswith(b\"\\x00\\x00\"):\n                try:\n                    return unpacked_data[:-1].decode(\"utf8\")",
      "            if not unpacked_data.endswith(b\"\\x00\\x00\"):\n                try:\n                    return unpacked_data.rstrip(b\"\\x00\").decode(\"utf8\")"),
-    ("C02", "eager-reencode-on-blocks-access", P + "base/message/message.py",
-     "    def invalidate_caches(self):\n        # Don't have any caches if we haven't even parsed\n        if self.raw_body:\n            return",
-     "    def invalidate_caches(self):\n        # Don't have any caches if we haven't even parsed\n        if self.raw_body:\n            self.ensure_parsed()"),
     # ---- C07 ----
     ("C07", "no-short-circuit", P + "proxy/addons.py",
-     "            ret = cls._call_module_hooks(module, hook_name, *args, call_async=call_async, **kwargs)\n            if ret:\n                return ret\n\n        return None",
-     "            ret = cls._call_module_hooks(module, hook_name, *args, call_async=call_async, **kwargs) or ret\n\n        return ret"
+     "        for module in cls.FRESH_ADDON_MODULES.values():\n            if not module:\n                continue\n            ret = cls._call_module_hooks(module, hook_name, *args, call_async=call_async, **kwargs)\n            if ret:\n                return ret\n\n        return None",
+     "        final = None\n        for module in cls.FRESH_ADDON_MODULES.values():\n            if not module:\n                continue\n            ret = cls._call_module_hooks(module, hook_name, *args, call_async=call_async, **kwargs)\n            final = final or ret\n\n        return final"
      ),
     ("C07", "double-drop", P + "proxy/lludp_proxy.py", "        if message.queued and not message.finalized:", "        if message.queued:"),
     ("C07", "take-does-not-queue", P + "base/message/message.py", "        if not self.finalized:\n            self.queued = True",
@@ -199,7 +193,7 @@ M = [
      "        if message.reliable or message.resent:\n            # This is a bit crap."),
     ("C19", "ids-reused-after-ack", P + "base/message/circuit.py",
      "            if resend_info:\n                resend_info.completed.set_result(None)",
-     "            if resend_info:\n                resend_info.completed.set_result(None)\n                if not self.unacked_reliable and ack + 1 == self.packet_id_base and ack > 40:\n                    self.packet_id_base = ack"),
+     "            if resend_info:\n                resend_info.completed.set_result(None)\n                if not self.unacked_reliable and ack + 1 == self.packet_id_base and ack >= 2:\n                    self.packet_id_base = ack"),
     ("C19", "future-resolved-on-any-ack", P + "base/message/circuit.py",
      "            resend_info = self.unacked_reliable.pop((~message.direction, ack), None)",
      "            resend_info = self.unacked_reliable.pop((~message.direction, ack), None) or (\n                self.unacked_reliable.pop((~message.direction, ack + 1), None) if message.name == \"PacketAck\" else None)"),
